@@ -87,8 +87,10 @@ def trnorm_case(seed, rng, ctx):
     else:  # bad4: four values
         e = b[:4] + [J] * 5
     tr = [] if e is None else list(m.o) + e
+    rounded = False
     if rng.random() < 0.1 and len(tr) > 3:      # slightly non-orthogonal input (rounded to 4 digits)
         tr = tr[:3] + [None if x is None else round(x, 4) for x in tr[3:]]
+        rounded = True
     try:
         code = [float(x) for x in normalize_transform(list(tr))]
     except Exception as ex:  # noqa
@@ -115,7 +117,9 @@ def trnorm_case(seed, rng, ctx):
             det = (rows[0][0] * (rows[1][1] * rows[2][2] - rows[1][2] * rows[2][1]) - rows[0][1] * (rows[1][0] * rows[2][2] - rows[1][2] * rows[2][0])
                    + rows[0][2] * (rows[1][0] * rows[2][1] - rows[1][1] * rows[2][0]))
             supplied = max([abs(a - c) for a, c in zip(tr[3:12], mat) if a is not None] or [0.0])
-            if orth > 1e-6 or (det < 0 and cls != 'improper') or supplied > 2e-4:
+            # entries rounded to four digits are not exactly unit rows: adjust_matrix renormalises them, so they are
+            # reproduced to the rounding only
+            if orth > 1e-6 or (det < 0 and cls != 'improper') or supplied > (5e-3 if rounded else 1e-9):
                 fails.append(fail('violation', 'TR card %r is completed to %r: orthogonality defect %.2e, det %.3f, supplied entries '
                                   'reproduced to %.2e' % (tr, mat, orth, det, supplied), {'stream': 'trnorm', 'class': 'completion', 'kind': kind}, rp))
     return dict(hashes=[key], nontrivial_hashes=[key] if len(tr) > 3 else [], dist={'trnorm:' + kind: 1, 'trnorm:rot-' + cls: 1},
